@@ -64,21 +64,25 @@ def pmap(fn, items, workers=None):
         return list(ex.map(fn, items))
 
 
-def run(cmd, stdin=None, timeout=TIMEOUT, env=None):
+def run(cmd, stdin=None, timeout=TIMEOUT, env=None, cwd=None, stdin_file=None):
     """returns (rc, stdout, stderr, timed_out)"""
     e = dict(os.environ)
     e.pop("RUST_BACKTRACE", None)
     if env:
         e.update(env)
     try:
-        p = subprocess.run(cmd, input=stdin, stdout=subprocess.PIPE, stderr=subprocess.PIPE, timeout=timeout, env=e)
+        if stdin_file is not None:
+            with open(stdin_file, "rb") as fh:
+                p = subprocess.run(cmd, stdin=fh, stdout=subprocess.PIPE, stderr=subprocess.PIPE, timeout=timeout, env=e, cwd=cwd)
+        else:
+            p = subprocess.run(cmd, input=stdin, stdout=subprocess.PIPE, stderr=subprocess.PIPE, timeout=timeout, env=e, cwd=cwd)
         return p.returncode, p.stdout, p.stderr, False
     except subprocess.TimeoutExpired as ex:
         return -9, ex.stdout or b"", ex.stderr or b"", True
 
 
-def cli(args, stdin=None, timeout=TIMEOUT):
-    return run([fe.CLI] + args, stdin=stdin, timeout=timeout)
+def cli(args, stdin=None, timeout=TIMEOUT, env=None, cwd=None, stdin_file=None):
+    return run([fe.CLI] + args, stdin=stdin, timeout=timeout, env=env, cwd=cwd, stdin_file=stdin_file)
 
 
 def lib(kind, timeout=60, **kw):
@@ -608,6 +612,126 @@ def c15_bin_sweep(rep, d, tier):
     rep.sample("kmertools cov -k 15 -s 49 -c 5 --counts on 49 x X, 98 x Y, 147 x Z, 97 x U (single-window records): rows of X in bin 1, Y in bin 2, Z in bin 3, U in bin 1; every -s from 5 to %d" % smax)
 
 
+def c15_paths(rep, d, inputs):
+    """where the input and the output live, how they are named and what the environment says is not part of what a
+    subcommand computes: every variant must give the result of the plain run (absolute, simple paths)"""
+    recs = inputs["in5"][1]
+    fa_bytes = inputs["in5"][0]["fa_bytes"]
+    subs = {
+        "oligo": (["comp", "oligo", "-k", "3"], "file"), "oligo-c": (["comp", "oligo", "-k", "3", "-c", "-H"], "file"),
+        "kcgr": (["comp", "cgr", "-k", "3", "-v", "16"], "file"), "cov": (["cov", "-k", "7", "-s", "5", "-c", "5"], "dir"),
+        "s2m": (["min", "-m", "7", "-w", "12"], "file"), "m2s": (["min", "-m", "7", "-p", "m2s"], "file"), "ctr": (["ctr", "-k", "11"], "dir"),
+    }
+
+    def result(out, kind, name):
+        if kind == "file":
+            return {"out": read(out)}
+        return {f: read(os.path.join(out, f)) for f in (("kmers.counts",) if name == "ctr" else ("kmers.counts", "kmers.vectors"))}
+
+    def canon(name, res):
+        o = {}
+        for f, data in res.items():
+            if data is None:
+                o[f] = None
+            elif f == "kmers.counts" or name == "s2m":
+                o[f] = sorted(lines_of(data))
+            elif name == "m2s":
+                o[f] = m2s_canon(data)
+            else:
+                o[f] = data
+        return o
+
+    def variants(base):
+        """(label, input argument, output argument, cwd, env, stdin file, set-up)"""
+        def mk(path):
+            os.makedirs(os.path.dirname(path), exist_ok=True)
+            open(path, "wb").write(fa_bytes)
+            return path
+        v = []
+        v.append(("plain", mk(os.path.join(base, "p", "in.fa")), os.path.join(base, "p", "out"), None, None))
+        v.append(("relative paths", "in.fa", "out", mk(os.path.join(base, "rel", "in.fa")) and os.path.join(base, "rel"), None))
+        v.append(("relative with ./ and ..", "./sub/../in.fa", "./o/../out", (mk(os.path.join(base, "dots", "in.fa")), os.makedirs(os.path.join(base, "dots", "sub")), os.makedirs(os.path.join(base, "dots", "o")))[0] and os.path.join(base, "dots"), None))
+        v.append(("blanks and non-ASCII in the path", mk(os.path.join(base, "my reads \u00e9\u4e2d", "in put.v1.fa")), os.path.join(base, "my reads \u00e9\u4e2d", "out put"), None, None))
+        v.append(("dots in directory names", mk(os.path.join(base, "run.fq.gz", "x.y", "in.fa")), os.path.join(base, "run.fq.gz", "x.y", "out.txt.gz"), None, None))
+        v.append(("output nested in directories that do not exist yet (dir outputs) / input via symlink", None, None, None, None))
+        v.append(("RAYON_NUM_THREADS=1 with -t 0", mk(os.path.join(base, "e1", "in.fa")), os.path.join(base, "e1", "out"), None, {"RAYON_NUM_THREADS": "1"}))
+        v.append(("RAYON_NUM_THREADS=3 with -t 0", mk(os.path.join(base, "e3", "in.fa")), os.path.join(base, "e3", "out"), None, {"RAYON_NUM_THREADS": "3"}))
+        v.append(("RAYON_NUM_THREADS=7 with -t 2", mk(os.path.join(base, "e7", "in.fa")), os.path.join(base, "e7", "out"), None, {"RAYON_NUM_THREADS": "7", "_t": "2"}))
+        v.append(("input and output in the current directory, output name next to the input name", "in.fa", "in.fa.out", mk(os.path.join(base, "same", "in.fa")) and os.path.join(base, "same"), None))
+        return v
+
+    jobs = [(name, i) for name in subs for i in range(10)]
+
+    def do(job):
+        name, vi = job
+        args, kind = subs[name]
+        base = fresh_dir("paths")
+        label, inp, out, cwd, env = variants(base)[vi]
+        if inp is None:
+            # symlinked input; for directory outputs a nested, not yet existing output directory
+            real = os.path.join(base, "real", "in.fa")
+            os.makedirs(os.path.dirname(real))
+            open(real, "wb").write(fa_bytes)
+            os.makedirs(os.path.join(base, "l"))
+            inp = os.path.join(base, "l", "link.fa")
+            os.symlink(real, inp)
+            out = os.path.join(base, "l", "a", "b", "out") if kind == "dir" else os.path.join(base, "l", "out")
+            if kind == "dir":
+                label = "input via symlink, output directory nested two levels below an existing one"
+            else:
+                label = "input via symlink"
+        env = dict(env or {})
+        t = env.pop("_t", "0")
+        if kind == "dir" and vi % 2 == 1 and not out.endswith("/"):
+            out = out + "/"  # a trailing slash on the output directory
+            label += ", trailing slash on the output directory"
+        rc, so, err, to = cli(args + ["-i", inp, "-o", out, "-t", t], cwd=cwd, env=env or None, timeout=60)
+        rep.ev(1, 1)
+        full_out = out if os.path.isabs(out) else os.path.join(cwd, out)
+        res = canon(name, result(full_out.rstrip("/") if kind == "dir" else full_out, kind, name)) if rc == 0 and not to else None
+        shutil.rmtree(base, ignore_errors=True)
+        return (name, vi, label, rc, err[-200:], res)
+
+    results = pmap(do, jobs)
+    plain = {name: res for (name, vi, label, rc, err, res) in results if vi == 0}
+    for name, vi, label, rc, err, res in results:
+        a = {"sub": name, "variant": vi}
+        if vi == 0:
+            if res is None or any(v is None for v in res.values()):
+                rep.violation("accepted-options-failed", 3, "kmertools %s on plain absolute paths: exit %s %r" % (name, rc, err), "c15_paths", a)
+            continue
+        if res is None:
+            rep.violation("path-or-environment-changes-the-result", 5, "kmertools %s with %s: exit %s, stderr %r (the plain run succeeds)" % (name, label, rc, err), "c15_paths", a)
+        elif res != plain.get(name):
+            rep.violation("path-or-environment-changes-the-result", 5, "kmertools %s with %s: the result differs from the run on plain absolute paths" % (name, label), "c15_paths", a)
+    # standard input: a pipe, a regular file, and an empty file
+    base = fresh_dir("stdin")
+    fa = os.path.join(base, "in.fa")
+    open(fa, "wb").write(fa_bytes)
+    open(os.path.join(base, "empty.fa"), "wb").close()
+    outs = {}
+    for how in ("pipe", "file", "argument"):
+        out = os.path.join(base, "out-" + how)
+        if how == "pipe":
+            rc, so, err, to = cli(["comp", "oligo", "-i", "-", "-o", out, "-k", "3", "-t", "2"], stdin=fa_bytes)
+        elif how == "file":
+            rc, so, err, to = cli(["comp", "oligo", "-i", "-", "-o", out, "-k", "3", "-t", "2"], stdin_file=fa)
+        else:
+            rc, so, err, to = cli(["comp", "oligo", "-i", fa, "-o", out, "-k", "3", "-t", "2"])
+        rep.ev(1, 1)
+        outs[how] = read(out) if rc == 0 else None
+    if not (outs["pipe"] == outs["file"] == outs["argument"]) or outs["pipe"] is None:
+        rep.violation("path-or-environment-changes-the-result", 5, "kmertools comp oligo: input through a pipe, through a regular file on standard input and by name give different results (%s)" % {k: (None if v is None else len(v)) for k, v in outs.items()}, "c15_paths", {"sub": "stdin"})
+    out = os.path.join(base, "out-empty")
+    rc, so, err, to = cli(["comp", "oligo", "-i", "-", "-o", out, "-k", "3"], stdin_file=os.path.join(base, "empty.fa"))
+    rep.ev(1, 1)
+    if rc != 0 or read(out) != b"":
+        rep.violation("path-or-environment-changes-the-result", 5, "kmertools comp oligo -i - with an empty regular file on standard input: exit %s, output %r" % (rc, read(out)), "c15_paths", {"sub": "stdin-empty"})
+    shutil.rmtree(base, ignore_errors=True)
+    rep.count("c15.path_and_environment_runs", len(jobs) + 4)
+    rep.sample("kmertools cov -i link.fa -o l/a/b/out/ (symlinked input, nested new output directory, trailing slash) == the run on plain absolute paths")
+
+
 def m2s_canon(data):
     if data is None:
         return None
@@ -645,6 +769,7 @@ def c15(tier):
     c15_refusals(rep, d, inputs)
     c15_others(rep, d, inputs, tier)
     c15_bin_sweep(rep, d, tier)
+    c15_paths(rep, d, inputs)
     rep.note("C15: release binary built from /repo with the guard off; every lattice point is one process run; library results come from `ktmc lib` (same crates, explicit setters)")
     return rep.done()
 
@@ -728,8 +853,11 @@ C16_VARIANTS = [
 def c16_check(variant, recs, t, wd, final_newline=True):
     """runs one CLI case; returns None if fine, else (key, message)"""
     name, kk, ww = variant
-    inp = os.path.join(wd, "in.fa")
     data = fasta_bytes(recs)
+    # a third of the cases (by content) use names with a blank and a non-ASCII letter, a third relative paths
+    mode = (len(data) + 2 * t) % 3
+    inp = os.path.join(wd, "in put \u00e9.fa" if mode == 1 else "in.fa")
+    cwd = wd if mode == 2 else None
     if final_newline == "bare" and data.endswith(b"\n\n"):
         # a last record without bases, written without a sequence line and without a line terminator: the file ends
         # with the header text
@@ -737,7 +865,7 @@ def c16_check(variant, recs, t, wd, final_newline=True):
     elif not final_newline and data.endswith(b"\n"):
         data = data[:-1]
     open(inp, "wb").write(data)
-    out = os.path.join(wd, "out")
+    out = os.path.join(wd, "out put" if mode == 1 else "out")
     # half of the cases (by content) find the results of an earlier, larger run at the output location
     if (len(data) + t) % 2 == 0:
         if name in ("cov", "ctr"):
@@ -772,8 +900,10 @@ def c16_check(variant, recs, t, wd, final_newline=True):
     else:
         args = ["ctr", "-i", inp, "-o", out, "-k", str(kk)]
     args += ["-t", str(t)]
-    rc, so, err, to = cli(args, stdin=stdin)
-    cmdline = "kmertools " + " ".join(args) + (" on records %r" % (recs,) if len(recs) <= 12 else " on %d records %r..." % (len(recs), recs[:6]))
+    if cwd:
+        args = [os.path.relpath(a, wd) if a in (inp, out) else a for a in args]
+    rc, so, err, to = cli(args, stdin=stdin, cwd=cwd)
+    cmdline = "kmertools " + " ".join(args) + (" [run in the directory of the input]" if cwd else "") + (" on records %r" % (recs,) if len(recs) <= 12 else " on %d records %r..." % (len(recs), recs[:6]))
     if to:
         return ("hang", "%s: no exit within %d s" % (cmdline, TIMEOUT))
     has_bad = any(pm.cls(b) is None for r in recs for b in r)
@@ -964,8 +1094,12 @@ def c17_runs(inputs):
     tiny, none = inputs["tiny"], inputs["none"]
     R = {}
 
-    def cli_run(args):
+    def cli_run(args, relative=False):
         def f(loc):
+            if relative:
+                # the location is the current directory and is named relatively
+                a = [x.replace("@/", "./").replace("@", ".") for x in args]
+                return cli(a, timeout=60, cwd=loc)
             a = [x.replace("@", loc) for x in args]
             return cli(a, timeout=60)
         return f
@@ -990,6 +1124,7 @@ def c17_runs(inputs):
         "oligo big k3 -c lib 4 threads 150-base batches": (lib_run("oligo", **{"in": big, "out": "@/vec.txt", "k": 3, "counts": 1, "writer": "batch", "threads": 4, "memory": 150}), ["vec.txt"]),
         # the same records under a name without a recognised suffix (the batched path looks at the first byte instead)
         "oligo small.txt k3 -c -H": (cli_run(["comp", "oligo", "-i", inputs["small_txt"], "-o", "@/vec.txt", "-k", "3", "-c", "-H"]), ["vec.txt"]),
+        "oligo small k3 (relative output path)": (cli_run(["comp", "oligo", "-i", small, "-o", "@/vec.txt", "-k", "3", "-t", "2"], relative=True), ["vec.txt"]),
         "oligo no records": (cli_run(["comp", "oligo", "-i", none, "-o", "@/vec.txt", "-k", "3"]), ["vec.txt"]),
         "oligo no records -c": (cli_run(["comp", "oligo", "-i", none, "-o", "@/vec.txt", "-k", "3", "-c"]), ["vec.txt"]),
     }
@@ -1029,6 +1164,8 @@ def c17_runs(inputs):
         "cov small alt=clean k9": (cli_run(["cov", "-i", small, "-a", clean_b, "-o", "@", "-k", "9", "-s", "5", "-c", "5"]), ["kmers.counts", "kmers.vectors"]),
         "ctr tiny k12 (no k-mer)": (cli_run(["ctr", "-i", tiny, "-o", "@", "-k", "12", "-t", "2"]), ["kmers.counts"]),
         "cov no records k7": (cli_run(["cov", "-i", none, "-o", "@", "-k", "7"]), ["kmers.counts", "kmers.vectors"]),
+        "cov small k9 (relative output directory)": (cli_run(["cov", "-i", small, "-o", "@", "-k", "9", "-s", "5", "-c", "5", "-t", "2"], relative=True), ["kmers.counts", "kmers.vectors"]),
+        "ctr small k10 (output directory with a trailing slash)": (cli_run(["ctr", "-i", small, "-o", "@/", "-k", "10", "-t", "2"]), ["kmers.counts"]),
     }
     return groups
 
@@ -1039,7 +1176,9 @@ C17_EQUIVALENT = [
     ["kcgr big k4 -c", "kcgr big k4 -c lib 1 thread 60-base batches"],
     ["cgr big", "cgr big lib 3 threads 30-base batches"],
     ["ctr small k10 (cli)", "ctr small k10 few chunks keep temp", "ctr small k10 tiny ceiling delete"],
-    ["cov small k9", "cov small k9 -m 128"],
+    ["cov small k9", "cov small k9 -m 128", "cov small k9 (relative output directory)"],
+    ["oligo small k3", "oligo small k3 (relative output path)"],
+    ["ctr small k10 (cli)", "ctr small k10 (output directory with a trailing slash)"],
 ]
 # (the "counts" rows of small.txt are also those of small.fa; there is no run of small.fa with -c -H to pair it with)
 
